@@ -853,6 +853,55 @@ let handle_meta fields =
     relay_oracle "meta" (rel ^ " " ^ size) orc
   | _ -> raise (Parse "bad meta line")
 
+
+(* ---------- family: inc (includes, C18) ---------- *)
+let parse_dirs s = if s = "-" then None else Some (L.map n_of_string (split_on ',' s))
+let parse_inc_items s : Include.item list =
+  if s = "-" then [] else
+    L.map (fun t ->
+        match t.[0] with
+        | 'm' -> Include.IMark (n_of_string (String.sub t 1 (String.length t - 1)))
+        | 's' -> Include.IIncStd
+        | 'r' -> Include.IInc (Include.PRel (n_of_string (String.sub t 1 (String.length t - 1))))
+        | 'a' ->
+          (match split_on ':' (String.sub t 1 (String.length t - 1)) with
+           | [d; f] -> Include.IInc (Include.PAbs (n_of_string d, n_of_string f))
+           | _ -> raise (Parse ("include item " ^ t)))
+        | _ -> raise (Parse ("include item " ^ t))) (words s)
+let handle_inc fields =
+  match fields with
+  | [fs; mode; contents; main; impl; orc] ->
+    let input = fs ^ " | " ^ mode ^ " | " ^ contents ^ " | " ^ main in
+    count_case input (main <> "-"); sample "inc" input impl;
+    if fs = "-" && main = "-" then relay_oracle "inc" input orc
+    else if impl = "PANIC" then relay_oracle "inc" input orc
+    else begin
+      let fsys = if fs = "-" then [] else
+          L.map (fun p -> match split_on ':' p with [d; f] -> (n_of_string d, n_of_string f) | _ -> raise (Parse "fs")) (split_on ',' fs) in
+      let (search, env) = match split_on '|' mode with
+        | [s_; e_] -> (parse_dirs (String.sub s_ 2 (String.length s_ - 2)), parse_dirs (String.sub e_ 2 (String.length e_ - 2)))
+        | _ -> raise (Parse "mode") in
+      let table = if contents = "-" then [] else
+          L.map (fun c -> match split_on '=' c with
+              | [k; its] -> (match split_on ':' k with [d; f] -> ((n_of_string d, n_of_string f), parse_inc_items its) | _ -> raise (Parse "content key"))
+              | _ -> raise (Parse "content")) (split_on ';' contents) in
+      let content d f = match L.assoc_opt (d, f) table with Some its -> its | None -> [] in
+      let evs = Include.expand fsys search env content (Accept.ids |> fun _ -> nat_of_int 10) (parse_inc_items main) in
+      let marks = L.filter_map (function Include.EMark t -> Some ("M" ^ string_of_n t) | _ -> None) evs in
+      let unread = L.filter_map (function
+          | Include.EUnreadable (Include.RFile (d, f)) -> Some ("XF" ^ string_of_n d ^ ":" ^ string_of_n f)
+          | Include.EUnreadable (Include.RAsGiven f) -> Some ("XG" ^ string_of_n f)
+          | _ -> None) evs in
+      (* diagnostics live in one list per file: only their multiset is comparable across files *)
+      let m = String.concat " " marks ^ "|" ^ String.concat " " (L.sort compare unread) in
+      let impl_n = match split_on '|' impl with
+        | [a; b] -> a ^ "|" ^ String.concat " " (L.sort compare (words b))
+        | _ -> impl in
+      if m <> impl_n then mismatch "inc" (input ^ " ;; " ^ orc) impl_n m;
+      relay_oracle "inc" input orc
+    end
+  | _ -> raise (Parse "bad inc line")
+
 (* ---------- main loop ---------- *)
 let () =
   Array.iter (fun a -> if a = "--nodedupe" then dedupe := false) Sys.argv;
@@ -881,6 +930,7 @@ let () =
              | "accept" -> handle_accept fields
              | "nopanic" -> handle_nopanic fields
              | "meta" -> handle_meta fields
+             | "inc" -> handle_inc fields
              | _ -> raise (Parse ("unknown family " ^ fam)))
           with Parse m -> report "DRIVER-ERROR" [m; line]; incr mismatches)
        | [] -> ()
